@@ -181,12 +181,26 @@ def facts18(fname, fn, rel, defs, order):
     visit(cxxast.body(fn))
 
 
+def method_decl(rel, qual):
+    """like cxxast.function_decl, but one clang run per (file, class) instead of one per method"""
+    cls, name = qual.split("::")[-2], qual.split("::")[-1]
+    best = None
+    for d in cxxast.dump(rel, cls):
+        for n in cxxast.walk(d):
+            if n.get("kind") in ("FunctionDecl", "CXXMethodDecl") and n.get("name") == name \
+               and any(isinstance(c, dict) and c.get("kind") == "CompoundStmt" for c in n.get("inner", [])):
+                best = n
+    if best is None:
+        raise cxxast.Untranslatable("no body for %s in %s" % (qual, rel))
+    return best
+
+
 def main():
     out = ["(* GENERATED by lib/gen_C18.py from %s -- do not edit *)" % cxxast.REPO,
            "From Coq Require Import ZArith Bool List.", "Local Open Scope Z_scope.", "Local Open Scope bool_scope.", ""]
     msgs = []
     try:
-        fn = cxxast.function_decl(REL, "ProtobufCodecLite::onMessage")
+        fn = method_decl(REL, "ProtobufCodecLite::onMessage")
         wh = [n for n in cxxast.walk(fn) if n.get("kind") == "WhileStmt"]
         if not wh:
             raise cxxast.Untranslatable("no while loop in onMessage")
@@ -206,7 +220,7 @@ def main():
     defs, order = {}, []
     for rel, qual, fname in FUNCS:
         try:
-            facts18(fname, cxxast.function_decl(rel, qual), rel, defs, order)
+            facts18(fname, method_decl(rel, qual), rel, defs, order)
         except Exception as e:  # noqa
             out.append("(* MISSING %s: %s *)" % (fname, str(e).replace("*)", "")))
             msgs.append("MISSING %s" % fname)
